@@ -49,6 +49,11 @@ def make_cases(ctx):
         kw = {"languages": ["en"]}
         if parser == "abs":
             st["RELATIVE_BASE"] = list(ref) + [10, 30, 0, 0]
+            # the reference date is the reference's OWN calendar date, also for a timezone-aware reference close to
+            # midnight whose UTC instant falls on another day
+            if rng.random() < 0.15:
+                hh, mm = rng.choice([(23, 30), (0, 15), (23, 59), (0, 0), (12, 0)])
+                st["RELATIVE_BASE"] = {"dt": list(ref) + [hh, mm, 0, 0], "tz": rng.choice([-18000, 50400, -43200, 19800, 3600, -34200, 0])}
             # month written by name, four-digit year: the result does not depend on the order in which numbers are read,
             # whether that order is given explicitly or comes with the locale (en-CA, en-ZA, en-SE read year first)
             if y >= 1000 and "%m" not in fmt and parts != "y":
